@@ -189,6 +189,37 @@ def gen_hist(rng, klass=None):
     return {"kind": "hist", "pool": [hx(c) for c in pool], "digests": [sha(c) for c in pool], "ops": ops, "klass": klass or "hist"}
 
 
+def gen_chunk_hist(rng):
+    """histories that mix the chunked writer (DiskCache.Chunked / Chunker.Put / Commit, chunked.go) with Put and Get on the
+    same digests; monitored only (the model of Chunker is C09's Blob/Pull.v)"""
+    pool = list(dict.fromkeys(rnd_content(rng, rng.randint(2, 12)) for _ in range(rng.randint(1, 2))))
+    ops = []
+    for _ in range(rng.randint(2, 6)):
+        c = rng.choice(pool)
+        d = sha(c)
+        r = rng.random()
+        if r < 0.6:
+            n = len(c)
+            k = rng.randint(1, min(3, n))
+            cuts = sorted(rng.sample(range(1, n), k - 1)) if k > 1 else []
+            bounds = [0] + cuts + [n]
+            chunks = []
+            idx = list(range(len(bounds) - 1))
+            rng.shuffle(idx)
+            for i in idx:
+                if rng.random() < 0.2:
+                    continue                       # this chunk never arrives
+                part = c[bounds[i]:bounds[i + 1]]
+                kind = rng.choice(["honest", "honest", "honest", "short", "corrupt", "err", "long-after"])
+                chunks.append({"start": bounds[i], "len": len(part), "d": sha(part), "src": mk_src(rng, part, kind), "k": kind})
+            ops.append({"op": "chunked", "d": d, "size": n, "chunks": chunks, "commit": rng.random() < 0.8})
+        elif r < 0.8:
+            ops.append({"op": "put", "d": d, "size": len(c), "src": mk_src(rng, c, rng.choice(SRC_KINDS)), "k": "mixed"})
+        else:
+            ops.append({"op": "get", "d": d})
+    return {"kind": "hist", "pool": [hx(c) for c in pool], "digests": [sha(c) for c in pool], "ops": ops, "klass": "hist-chunked", "monitor_only": True}
+
+
 def gen_conc(rng):
     c = rnd_content(rng, rng.randint(2, 12))
     r = rng.random()
@@ -275,6 +306,8 @@ def gen_cases(ctx):
     nh, nc = (260, 140) if ctx.quick() else (6000, 3000)
     for _ in range(nh):
         cases.append(gen_hist(rng))
+    for _ in range(nh // 5):
+        cases.append(gen_chunk_hist(rng))
     for _ in range(nc):
         cases.append(gen_conc(rng))
     return cases
@@ -421,6 +454,8 @@ def render_conc(c, o):
 def render(c, o):
     if "panic" in o or "harness_error" in o or "steps" not in o:
         return "false"
+    if c.get("monitor_only"):
+        return "true"
     if c["kind"] == "hist":
         if len(o["steps"]) != len(c["ops"]):
             return "false"
@@ -597,6 +632,8 @@ def run(ctx, only_cases=None):
         ctx.note_case(canon(c), nontrivial(c, o), c.get("klass"), sample={"case": {k: v for k, v in c.items() if k != "pool"}, "impl_last": (o.get("steps") or [None])[-1]})
         if c["kind"] == "hist":
             for op in c["ops"]:
+                for ch in op.get("chunks", []):
+                    ctx.count("chunk-src:" + ch["k"])
                 ctx.count("op:" + op["op"] + (":" + op["k"] if "k" in op else "") + (":crash" if op.get("crash") is not None else "") + (":bytes" if op.get("bytes") else ""))
                 st = None
             for st in o.get("steps", []):
